@@ -29,20 +29,23 @@ import (
 	v1nodetypes "buf.build/gen/go/agglayer/agglayer/protocolbuffers/go/agglayer/node/types/v1"
 	v1node "buf.build/gen/go/agglayer/agglayer/protocolbuffers/go/agglayer/node/v1"
 	v1types "buf.build/gen/go/agglayer/interop/protocolbuffers/go/agglayer/interop/types/v1"
+	proverv1grpc "buf.build/gen/go/agglayer/provers/grpc/go/aggkit/prover/v1/proverv1grpc"
+	proverv1 "buf.build/gen/go/agglayer/provers/protocolbuffers/go/aggkit/prover/v1"
 	agglayergrpc "github.com/agglayer/aggkit/agglayer/grpc"
 	agglayertypes "github.com/agglayer/aggkit/agglayer/types"
-	aggsendertypes "github.com/agglayer/aggkit/aggsender/types"
-	cfgtypes "github.com/agglayer/aggkit/config/types"
-	aggkitgrpc "github.com/agglayer/aggkit/grpc"
-	"github.com/agglayer/aggkit/tree"
-	"google.golang.org/grpc"
-	"google.golang.org/protobuf/proto"
+	"github.com/agglayer/aggkit/aggsender/aggchainproofclient"
 	"github.com/agglayer/aggkit/aggsender/optimistic/optimistichash"
+	aggsendertypes "github.com/agglayer/aggkit/aggsender/types"
 	"github.com/agglayer/aggkit/bridgesync"
 	aggkitcommon "github.com/agglayer/aggkit/common"
+	cfgtypes "github.com/agglayer/aggkit/config/types"
+	aggkitgrpc "github.com/agglayer/aggkit/grpc"
 	"github.com/agglayer/aggkit/l1infotreesync"
+	"github.com/agglayer/aggkit/tree"
 	treetypes "github.com/agglayer/aggkit/tree/types"
 	"github.com/ethereum/go-ethereum/common"
+	"google.golang.org/grpc"
+	"google.golang.org/protobuf/proto"
 	"verif/h/ref"
 	sk "verif/h/storekit"
 )
@@ -128,7 +131,7 @@ func hashInputs(g int) (bs []*bridgesync.Bridge, cert *agglayertypes.Certificate
 		cert.BridgeExits = append(cert.BridgeExits, be)
 		l1leaf := &agglayertypes.L1InfoTreeLeaf{L1InfoTreeIndex: uint32(i), RollupExitRoot: common.BytesToHash([]byte{4, byte(g), byte(i)}),
 			MainnetExitRoot: common.BytesToHash([]byte{5, byte(g), byte(i)}),
-			Inner: &agglayertypes.L1InfoTreeLeafInner{GlobalExitRoot: common.BytesToHash([]byte{6, byte(g), byte(i)}), BlockHash: common.BytesToHash([]byte{7, byte(g)}), Timestamp: uint64(1000 + i)}}
+			Inner:           &agglayertypes.L1InfoTreeLeafInner{GlobalExitRoot: common.BytesToHash([]byte{6, byte(g), byte(i)}), BlockHash: common.BytesToHash([]byte{7, byte(g)}), Timestamp: uint64(1000 + i)}}
 		cert.ImportedBridgeExits = append(cert.ImportedBridgeExits, &agglayertypes.ImportedBridgeExit{BridgeExit: be,
 			ClaimData:   &agglayertypes.ClaimFromMainnnet{ProofLeafMER: mkProof(10), ProofGERToL1Root: mkProof(11), L1Leaf: l1leaf},
 			GlobalIndex: &agglayertypes.GlobalIndex{MainnetFlag: true, LeafIndex: uint32(g*8 + i)}})
@@ -187,6 +190,18 @@ func hashAll(g int) []string {
 			out = append(out, again.Hash().Hex())
 		}
 	}
+	// the prover request the ONE aggchain-proof client of the process builds for this certificate's imported exits (tools and
+	// the aggsender share a client between goroutines): the bytes the service receives, hashed on arrival
+	req := &aggsendertypes.AggchainProofRequest{LastProvenBlock: uint64(g), RequestedEndBlock: uint64(g + 10)} //nolint:mnd
+	for i, ib := range cert.ImportedBridgeExits {
+		req.ImportedBridgeExitsWithBlockNumber = append(req.ImportedBridgeExitsWithBlockNumber,
+			&agglayertypes.ImportedBridgeExitWithBlockNumber{BlockNumber: uint64(g*10 + i), ImportedBridgeExit: ib}) //nolint:mnd
+	}
+	if _, err := sharedProofClient().GenerateAggchainProof(context.Background(), req); err != nil {
+		out = append(out, fmt.Sprintf("prover request error %v", err))
+	} else {
+		out = append(out, "prover request "+proverStub.digestOf(uint64(g)))
+	}
 	// the wire message the real gRPC client builds for this certificate
 	sub := &captureSubmission{}
 	cl := agglayergrpc.NewVerifAgglayerGRPCClient(&aggkitgrpc.ClientConfig{RequestTimeout: cfgtypes.NewDuration(time.Minute)}, nil, nil, sub)
@@ -200,7 +215,52 @@ func hashAll(g int) []string {
 	return out
 }
 
-type captureSubmission struct{ last *v1node.SubmitCertificateRequest }
+// hashingProver is the prover service behind the shared client: it serialises every request it receives (as the gRPC
+// transport would) and keeps the digest per request (keyed by its last proven block)
+type hashingProver struct {
+	proverv1grpc.AggchainProofServiceClient
+	mu      gosync.Mutex
+	digests map[uint64]string
+}
+
+func (h *hashingProver) GenerateAggchainProof(_ context.Context, in *proverv1.GenerateAggchainProofRequest,
+	_ ...grpc.CallOption) (*proverv1.GenerateAggchainProofResponse, error) {
+	time.Sleep(50 * time.Microsecond) // the request waits in the transport for a moment before it is written
+	raw, err := proto.Marshal(in)
+	if err != nil {
+		return nil, err
+	}
+	h.mu.Lock()
+	h.digests[in.LastProvenBlock] = fmt.Sprintf("%x", sha256.Sum256(raw))
+	h.mu.Unlock()
+	return &proverv1.GenerateAggchainProofResponse{AggchainProof: &v1types.AggchainProof{
+		AggchainParams: &v1types.FixedBytes32{Value: make([]byte, 32)}, Context: map[string][]byte{}, //nolint:mnd
+		Proof: &v1types.AggchainProof_Sp1Stark{Sp1Stark: &v1types.SP1StarkProof{Version: "v", Proof: []byte{1}, Vkey: []byte{2}}}},
+		LastProvenBlock: in.LastProvenBlock, EndBlock: in.RequestedEndBlock, LocalExitRootHash: &v1types.FixedBytes32{Value: make([]byte, 32)}}, nil //nolint:mnd
+}
+
+func (h *hashingProver) digestOf(k uint64) string {
+	h.mu.Lock()
+	defer h.mu.Unlock()
+	return h.digests[k]
+}
+
+var (
+	proverStub      = &hashingProver{digests: map[uint64]string{}}
+	proofClientOnce gosync.Once
+	proofClient     *aggchainproofclient.AggchainProofClient
+)
+
+func sharedProofClient() *aggchainproofclient.AggchainProofClient {
+	proofClientOnce.Do(func() {
+		proofClient = aggchainproofclient.NewVerifAggchainProofClient(&aggkitgrpc.ClientConfig{RequestTimeout: cfgtypes.NewDuration(time.Minute)}, proverStub)
+	})
+	return proofClient
+}
+
+type captureSubmission struct {
+	last *v1node.SubmitCertificateRequest
+}
 
 func (s *captureSubmission) SubmitCertificate(_ context.Context, in *v1node.SubmitCertificateRequest,
 	_ ...grpc.CallOption) (*v1node.SubmitCertificateResponse, error) {
